@@ -895,11 +895,16 @@ class MetaHooks(PregexHooks):
         return NotImplemented
 
 
-def build(model: Model, clsname: str, args=(), kwargs=None, opaque_meta=(), opaque_fn=None, module="pregex.meta.essentials"):
-    """Construct a meta class in meta mode -> ('term', term) | ('raise', PyRaise)."""
+def meta_interp(model: Model, opaque_meta=(), opaque_fn=None, fuel=None):
+    """An interpreter in meta mode; one instance stands for one process (module- and class-level objects live on)."""
     env = MetaEnv(model, opaque_meta, opaque_fn)
-    hooks = MetaHooks(model, env)
-    it = Interp(model, hooks)
+    return Interp(model, MetaHooks(model, env), **({"fuel": fuel} if fuel else {}))
+
+
+def build(model: Model, clsname: str, args=(), kwargs=None, opaque_meta=(), opaque_fn=None, module="pregex.meta.essentials", interp=None):
+    """Construct a meta class in meta mode -> ('term', term) | ('raise', PyRaise).  `interp`: build inside that
+    (longer-lived) interpreter instead of a fresh one."""
+    it = interp if interp is not None else meta_interp(model, opaque_meta, opaque_fn)
     ci = model.cls(module, clsname)
     try:
         o = it.construct(ci, list(args), dict(kwargs or {}))
